@@ -81,8 +81,12 @@ type cacheClient interface{ Cache() *cache.TableCache }
 
 func cacheDump(c cacheClient, cdb *DB, tables []string) []DumpRow {
 	var out []DumpRow
+	cch := c.Cache()
+	if cch == nil { // a client without reconnect drops its cache when it is disconnected
+		return out
+	}
 	for _, t := range tables {
-		tc := c.Cache().Table(t)
+		tc := cch.Table(t)
 		if tc == nil {
 			continue
 		}
